@@ -55,7 +55,22 @@ pub fn load(case: &Value) -> Result<Compiler, Value> {
             }
         }
         let rules: Vec<Value> = case["rules"].as_array().cloned().unwrap_or_default();
-        c.load_rules_from_str(rules_yaml(&rules)).map_err(|e| json!({"load": compiler_err_kind(&e)}))?;
+        // the same documents, in one of several YAML dresses and through one of the public ways of loading them
+        // (chosen by the shape of the case, so that a case always takes the same road)
+        let shape = rules.len() as u64 * 7 + case["events"].as_array().map(|a| a.len()).unwrap_or(0) as u64 + rules.first().and_then(|r| r["name"].as_str()).map(|n| n.len() as u64).unwrap_or(0);
+        let style = [0u64, 0, 1, 2, 5, 9, 3, 0][(shape % 8) as usize];
+        let text = crate::doc::rules_yaml_styled(&rules, style);
+        match (shape / 8) % 3 {
+            0 => c.load_rules_from_str(&text).map_err(|e| json!({"load": compiler_err_kind(&e)}))?,
+            1 => c.load_rules_from_reader(std::io::Cursor::new(text.into_bytes())).map_err(|e| json!({"load": compiler_err_kind(&e)}))?,
+            _ => {
+                // document by document: `Rule::deserialize_reader`, then `Compiler::load` for each rule in order
+                for r in gene::Rule::deserialize_reader(std::io::Cursor::new(text.into_bytes())) {
+                    let r = r.map_err(|_| json!({"load": "serde"}))?;
+                    c.load(r).map_err(|e| json!({"load": compiler_err_kind(&e)}))?;
+                }
+            }
+        }
         Ok(c)
     }));
     match r {
